@@ -242,7 +242,7 @@ pub fn prop() -> Prop<Case> {
     Prop {
         id: "C01",
         level: "exploration",
-        rule: "case = (options triple, generated tree <=40 nodes; 0.5% of cases are 'wide' trees of 110-320 files in 1-3 directories with mostly one block per file, and in the thorough tier occasionally > 10 000 files with one entry per hunk); non-trivial iff the tree has a non-empty file and >=2 of {combined block with >=2 files, file spanning >=2 blocks, file at exact block multiple, setuid/setgid/sticky bit, pre-1970 or sub-second mtime, non-ASCII name, symlink, non-root owner, >=2 index hunks} as measured from the independently decoded archive; distinct = distinct case JSON hash; plus five fixed scale probes per run (10 012 files with one entry per index hunk, i.e. a second index sub-directory; files stored as single blocks of 1 MiB+7, 5.5 MiB (twice) and 6 MiB with default options; single blocks of 40 MiB and 33 MiB+1 written with a 64 MiB block size; one 272 MiB file between small ones; 10 000 files with paths of 3.3 KB, an index hunk of more than 32 MiB); since round 6: one tree in sixteen hangs below a chain of 5-40 nested directories, names reach 251-255 bytes exactly, an eighth of the backups run with owner = false (owners then neither recorded nor compared), and two more probes: 100 200 files with default options (two index hunks by default) and 700 directories restored while the process may hold at most 512 open files",
+        rule: "case = (options triple, generated tree <=40 nodes; 0.5% of cases are 'wide' trees of 110-320 files in 1-3 directories with mostly one block per file, and in the thorough tier occasionally > 10 000 files with one entry per hunk); non-trivial iff the tree has a non-empty file and >=2 of {combined block with >=2 files, file spanning >=2 blocks, file at exact block multiple, setuid/setgid/sticky bit, pre-1970 or sub-second mtime, non-ASCII name, symlink, non-root owner, >=2 index hunks} as measured from the independently decoded archive; distinct = distinct case JSON hash; plus five fixed scale probes per run (10 012 files with one entry per index hunk, i.e. a second index sub-directory; files stored as single blocks of 1 MiB+7, 5.5 MiB (twice) and 6 MiB with default options; single blocks of 40 MiB and 33 MiB+1 written with a 64 MiB block size; one 272 MiB file between small ones; 10 000 files with paths of 3.3 KB, an index hunk of more than 32 MiB); since round 6: one tree in sixteen hangs below a chain of 5-40 nested directories, names reach 251-255 bytes exactly, an eighth of the backups run with owner = false (owners then neither recorded nor compared), and two more probes: 100 200 files with default options (two index hunks by default) and 700 directories restored while the process may hold at most 512 open files; since round 8 the empty destination directory is absent, plain, or set-group-id with another group (what is created in it inherits that group), and a quarter of the trees hold two files equal in every respect that are written as hard links of one another",
         assumptions: &[
             "runs as root on tmpfs; owners drawn from ids with names in /etc/passwd and /etc/group",
             "snapshot oracle uses lstat/readlink/read only (no conserve code)",
